@@ -71,7 +71,7 @@ def run(prop, tier):
 
     ntr, nops = (100, 250) if tier == "quick" else (500, 300)
     seeds = [ck.seed] if tier == "quick" else [ck.seed, ck.seed + 1000, ck.seed + 2000]
-    st = {"lines": 0, "traces": 0, "nontrivial": 0, "known_hits": 0}
+    st = {"lines": 0, "traces": 0, "nontrivial": 0, "known_hits": 0, "read_passes": 0, "chained_read_passes": 0}
     mismatches, oracle_hits, samples, stats_lines = [], [], [], []
     orders_seen = [None]
 
@@ -89,6 +89,8 @@ def run(prop, tier):
                 st["traces"] += 1
                 kv = dict(x.split("=") for x in ln.split()[2:])
                 st["lines"] += int(kv["lines"])
+                st["read_passes"] += int(kv.get("passes", 0))
+                st["chained_read_passes"] += int(kv.get("chained", 0))
                 if int(kv["grows"]) > 0 and int(kv["switches"]) > 0 and int(kv["stale"]) > 0 and int(kv["denies"]) > 0:
                     st["nontrivial"] += 1
             elif ln.startswith(("MISMATCH", "MODEL-", "BAD-", "NO-INIT")):
@@ -184,6 +186,8 @@ def run(prop, tier):
         "mismatching_lines": len(mismatches),
         "oracle_hits": len(oracle_hits),
         "known_finding_hits": st["known_hits"],
+        "read_passes_validated": st["read_passes"],
+        "read_passes_following_more_than_one_switch": st["chained_read_passes"],
     })
     return ck.finish()
 
